@@ -219,12 +219,14 @@ mod n {
 
     /// ... with the space itself turned within the building (AZIMUTH of the SPACE, clockwise like every BDL angle)
     fn cubo_variant_turned(off: (f32, f32, f32), dev: f32, outline: &[(f32, f32)], space_az: f32) -> String {
-        cubo_variant_full(off, dev, outline, space_az, 90.0)
+        cubo_variant_full(off, dev, outline, space_az, 90.0, 0)
     }
 
     /// ... and with the overhang of every window at `oh_angle` degrees from the wall plane (90 = perpendicular,
     /// 0 = hanging down parallel to the wall, more than 90 = rising)
-    fn cubo_variant_full(off: (f32, f32, f32), dev: f32, outline: &[(f32, f32)], space_az: f32, oh_angle: f32) -> String {
+    /// `which`: 0 = overhang and both fins on every window, 1 = the right fin alone, 2 = the left fin alone, 3 = the
+    /// overhang alone, 4 = the two fins
+    fn cubo_variant_full(off: (f32, f32, f32), dev: f32, outline: &[(f32, f32)], space_az: f32, oh_angle: f32, which: usize) -> String {
         let mut s = CUBO.to_string();
         // building deviation from north (clockwise, degrees)
         let bp = s.find("= BUILD-PARAMETERS").expect("BUILD-PARAMETERS");
@@ -253,8 +255,16 @@ mod n {
             blocks.push_str(&format!("\"{}\" = BUILDING-SHADE\n      BULB-TRA = \"Default.bulb\"\n      BULB-REF = \"Default.bulb\"\n      TRAN     =              0\n      REFL     =            0.7\n      X        = {}\n      Y        = {}\n      Z        = {}\n      HEIGHT   = {}\n      WIDTH    = {}\n      TILT     = {}\n      AZIMUTH  = {}\n           ..\n", name, x, y, z, h, w, tilt, az));
         }
         s.insert_str(sh, &blocks);
-        // an overhang and two fins on every window
-        with_window_protections(&s, 6).replace("OVERHANG-ANGLE = 90", &format!("OVERHANG-ANGLE = {}", oh_angle))
+        // an overhang and two fins on every window (or only some of the three)
+        let all = with_window_protections(&s, 6).replace("OVERHANG-ANGLE = 90", &format!("OVERHANG-ANGLE = {}", oh_angle));
+        let drop: &[&str] = match which {
+            1 => &["OVERHANG-", "LEFT-FIN-"],
+            2 => &["OVERHANG-", "RIGHT-FIN-"],
+            3 => &["LEFT-FIN-", "RIGHT-FIN-"],
+            4 => &["OVERHANG-"],
+            _ => &[],
+        };
+        all.split_inclusive('\n').filter(|l| !drop.iter().any(|d| l.trim_start().starts_with(d))).collect()
     }
 
     const RECT_SHADES: [(&str, f32, f32, f32, f32, f32, f32, f32); 3] = [
@@ -274,7 +284,7 @@ mod n {
 
     #[test]
     fn n_c03_conversion() {
-        drive("C03.conversion", "shipped project `cubo` re-written with space offset {(0,0,0),(3,7,0),(-4,2,1.5)} x building deviation {0,30,135,270} x space turned within the building by {0,30,250} (zero offset) x outline {square 10x10, trapezoid}; an overhang (at 90 / 60 / 120 degrees from the wall) and two fins on every window; parsed and converted by the real code; positions to 1 cm against the source definition", |c| {
+        drive("C03.conversion", "shipped project `cubo` re-written with space offset {(0,0,0),(3,7,0),(-4,2,1.5)} x building deviation {0,30,135,270} x space turned within the building by {0,30,250} (zero offset) x outline {square 10x10, trapezoid}; an overhang (at 90 / 60 / 120 degrees from the wall) and two fins on every window - or the right fin / the left fin / the overhang alone, or the two fins -; parsed and converted by the real code; positions to 1 cm against the source definition", |c| {
             let off = c.of(&[(0.0f32, 0.0f32, 0.0f32), (3.0, 7.0, 0.0), (-4.0, 2.0, 1.5)]);
             let dev = c.of(&[0.0f32, 30.0, 135.0, 270.0]);
             // a space turned within the building: with a zero offset, so that the order of turning and shifting the
@@ -287,8 +297,14 @@ mod n {
             let oh_angle = c.of(&[90.0f32, 60.0, 120.0]);
             let square = c.flag();
             let outline: Vec<(f32, f32)> = if square { vec![(0.0, 0.0), (10.0, 0.0), (10.0, 10.0), (0.0, 10.0)] } else { vec![(0.0, 0.0), (10.0, 0.0), (8.0, 6.0), (1.0, 7.0)] };
-            c.note(format!("offset {:?} deviation {} space azimuth {} overhang angle {} outline {:?}", off, dev, space_az, oh_angle, outline));
-            let text = cubo_variant_full(off, dev, &outline, space_az, oh_angle);
+            // which of the three protections the windows carry (all / one alone / the two fins): with the other angles
+            // only for the full set
+            let which = c.pick(5);
+            if which != 0 && oh_angle != 90.0 {
+                return;
+            }
+            c.note(format!("offset {:?} deviation {} space azimuth {} overhang angle {} outline {:?} protections {}", off, dev, space_az, oh_angle, outline, ["overhang + both fins", "right fin alone", "left fin alone", "overhang alone", "both fins"][which]));
+            let text = cubo_variant_full(off, dev, &outline, space_az, oh_angle, which);
             let data = match hulc::ctehexml::parse_with_catalog(&text) {
                 Ok(d) => d,
                 Err(e) => {
@@ -396,7 +412,10 @@ mod n {
                                     let (x0, y0) = (bwin.x + bwin.width + f.a, top - f.b);
                                     expect.push((format!("{}_right_fin", bwin.name), vec![at(x0, y0, 0.0), at(x0, y0 - f.height, 0.0), at(x0, y0 - f.height, f.depth), at(x0, y0, f.depth)]));
                                 }
-                                c.check("C03.window.protections_written", expect.len() == 3, || format!("window {}: {} of 3 protections parsed", bwin.name, expect.len()));
+                                c.check("C03.window.protections_written", expect.len() == [3, 1, 1, 1, 2][which], || format!("window {}: {} of {} protections parsed", bwin.name, expect.len(), [3, 1, 1, 1, 2][which]));
+                                // ... and nothing else hangs from this window
+                                let attached = model.shades.iter().filter(|m| m.name.starts_with(&format!("{}_", bwin.name))).count();
+                                c.check("C03.window.protection.count", attached == expect.len(), || format!("window {}: {} shades attached, {} written", bwin.name, attached, expect.len()));
                                 for (sname, want) in expect {
                                     match model.shades.iter().find(|m| m.name == sname) {
                                         None => c.check("C03.window.protection.present", false, || format!("shade {} missing", sname)),
@@ -440,7 +459,7 @@ mod n {
             }
             // turning the building leaves areas, volumes, K and n50 unchanged (compared with the unturned variant)
             if dev != 0.0 {
-                let base = Model::try_from(&hulc::ctehexml::parse_with_catalog(&cubo_variant_full(off, 0.0, &outline, space_az, oh_angle)).unwrap()).unwrap();
+                let base = Model::try_from(&hulc::ctehexml::parse_with_catalog(&cubo_variant_full(off, 0.0, &outline, space_az, oh_angle, which)).unwrap()).unwrap();
                 let (a, b) = (model.energy_indicators(), base.energy_indicators());
                 c.check("C03.rotation.invariants", (a.area_ref - b.area_ref).abs() < 0.011 && (a.vol_env_net - b.vol_env_net).abs() < 0.011 && (a.K_data.K - b.K_data.K).abs() < 1e-3 && (a.n50_data.n50 - b.n50_data.n50).abs() < 1e-3, || format!("turned by {}: A {} / {} V {} / {} K {} / {} n50 {} / {}", dev, a.area_ref, b.area_ref, a.vol_env_net, b.vol_env_net, a.K_data.K, b.K_data.K, a.n50_data.n50, b.n50_data.n50));
                 // every azimuth shifts by -dev (mod 360)
